@@ -186,6 +186,22 @@ def _check_mono(run, mod, Q, cfg, ys):
                     guards.append((n, r, ("last", _last_of(l)), op, True))
         nsites += 1
         key = "%s#loop@%s" % (Q, _loop_key(head))
+        if not guards and any(
+                n.id in body and n.kind == "test" and any(
+                    isinstance(x, ast.Call) and isinstance(
+                        x.func, ast.Name) and x.func.id in ("any", "all")
+                    and x.args and isinstance(
+                        x.args[0], (ast.GeneratorExp, ast.ListComp)) and
+                    any(isinstance(c_, ast.Compare) for c_ in ast.walk(
+                        x.args[0])) for x in ast.walk(n.ast))
+                for n in cfg.reachable):
+            # the order guard asks about every value collected so far
+            # instead of one tracker: that the maximum then rises strictly
+            # is a fact about the list, which this rule does not derive
+            raise AnalysisError(
+                "%s guards its polling loop with a quantified comparison "
+                "over the values collected so far (any / all); R-MONO reads "
+                "a comparison with one tracker" % Q)
         if not guards:
             run.ob("R-MONO", key, False,
                    "polling loop has no monotone guard: a unit that keeps "
@@ -835,6 +851,19 @@ def _check_concat(run, mod, G, cfg, ys, fn):
             continue
         got.add((src[0], src[1], grp.value))
     want = {(L, k, k) for k in range(8)} | {(H, k, k + 8) for k in range(8)}
+    if not got and not problems and any(
+            isinstance(x, ast.Call) and isinstance(
+                x.func, (ast.Name, ast.Attribute)) and unparse(
+                    x.func).split(".")[-1] in (
+                        "compress", "filter", "filterfalse", "takewhile",
+                        "dropwhile", "starmap", "reduce", "accumulate")
+            for x in ast.walk(fn)):
+        # the membership is built by an iterator tool the unroller does not
+        # interpret: nothing was derived, which is not the same as wrong
+        raise AnalysisError(
+            "%s builds the group set with an iterator tool (itertools / "
+            "filter) the rule does not unroll; no (answer, bit, group) "
+            "triple could be derived" % G)
     run.ob("R-CONCAT", G + "#high+low", not problems and {
         (a_, b_, g_) for (a_, b_, g_) in got if g_ >= 8} == {
             w_ for w_ in want if w_[2] >= 8} and {
@@ -999,8 +1028,15 @@ def _check_setgroups(run, world, mod, S, cfg, ys, fn):
             lnode = [n for n in cfg.reachable if n.kind == "for" and
                      n.ast is loop]
             if lnode:
+                # (so does a test whether the request equals the membership
+                # read: when it does both differences are empty, and leaving
+                # early writes exactly what the loops would have written)
+                same = {"%s == %s" % (grp, existing),
+                        "%s == %s" % (existing, grp),
+                        "%s != %s" % (grp, existing),
+                        "%s != %s" % (existing, grp)}
                 allc = _project(_path_conds(cfg, lnode[0], world),
-                                lambda a: a[1] != it)
+                                lambda a: a[1] != it and a[1] not in same)
                 okall, _w = pred.equivalent(allc, want)
                 run.ob("R-SETGRP", "%s#only-mode-guards:%s" % (S, y.name),
                        okall,
